@@ -143,6 +143,10 @@ def classify(div, ctx=None):
             props.add("C09")
         if last in ("write", "w_commit"):
             props |= {"C02"}
+        # content appearing or disappearing through a writer that was abandoned or whose commit
+        # was rejected is C14's subject (its effect on other entries' lookups)
+        if last in ("h_drop", "w_close") or (last == "w_commit" and ctx.get("last_res_ok") is False):
+            props |= {"C14", "C08"}
         if last in ("link_to", "l_commit"):
             props.add("C19")
         if last in ("read", "metadata", "exists", "list", "open_reader", "r_read", "r_check"):
